@@ -235,14 +235,16 @@ class Message:
     def should_close(self):
         if self.must_close:
             return True
-        for (h, v) in self.headers:
-            if h == "CONNECTION":
-                v = v.lower().strip(" \t")
-                if v == "close":
-                    return True
-                elif v == "keep-alive":
-                    return False
-                break
+        # Connection is a comma-separated list and may span several field lines
+        options = [
+            option.strip(" \t").lower()
+            for (h, v) in self.headers if h == "CONNECTION"
+            for option in v.split(",")
+        ]
+        if "close" in options:
+            return True
+        if "keep-alive" in options:
+            return False
         return self.version <= (1, 0)
 
 
